@@ -245,7 +245,19 @@ def rule_rankpairs(ctx):
     count = [t for t in cm if t.a[0] == "<=" and "b" in tm.params_of(t.a[1]) and "a" in tm.params_of(t.a[2])]
     st = [m for m in sg.by_kind("mutate") if m.how == "aug" and m.root == "inversions"]
     counted_under = bool(st) and all(any((c is count[0] and p) or (c is advance[0] and not p) for c, p in symeval.pc_conds(m.pc)) for m in st) if (count or advance) else False
-    yield ob(R, g, "hierarchy._count_inversions:ties", len(advance) == 1 and counted_under, "a pair is in order only when a < b strictly; ties (a >= b) are counted as inversions")
+    good_t = len(advance) == 1 and counted_under
+    why_t = "a pair is in order only when a < b strictly; ties (a >= b) are counted as inversions"
+    if not good_t and not st:
+        # vectorised form: for every value of b the points of a from searchsorted(a, b, side) on are counted;
+        # side="left" starts at the first a >= b (ties are inversions), side="right" at the first a > b (ties lost)
+        ss = [c for c in sg.calls() if c.callee in ("np.searchsorted", ".searchsorted") and len(c.args) >= 2 and "a" in tm.params_of(c.args[0]) and "b" in tm.params_of(c.args[1]) and "b" not in tm.params_of(c.args[0])]
+        if len(ss) == 1:
+            side = dict(ss[0].kw).get("side", ss[0].args[2] if len(ss[0].args) > 2 else tm.const("left"))
+            used = any(any(x is ss[0].term for x in tm.walk(r.term)) for r in sg.returns)
+            if side.op == "const" and used:
+                good_t = side.a[0] == "left"
+                why_t = "counts, for each value of b, the points of a from searchsorted(a, b, side='left') on: a >= b, ties are inversions" if good_t else "searchsorted(a, b, side=%r) starts after the values equal to b: ties (a == b) are no longer counted as inversions" % side.a[0]
+    yield ob(R, g, "hierarchy._count_inversions:ties", good_t, why_t)
 
 
 def _frame_map_ok(t, elem_pred):
@@ -313,6 +325,12 @@ def rule_labelfold(ctx):
     il = [c for c in s.calls() if c.callee == "util.index_labels"]
     eq = [c for c in s.calls() if c.callee == "np.equal.outer"]
     good = len(il) == 1 and len(il[0].args) == 1 and not il[0].kw and len(eq) == 1 and all(a.op == "sub" and a.a[0] is il[0].term and tm.is_const(a.a[1], 0) for a in eq[0].args)
+    if not good and len(il) == 1 and len(il[0].args) == 1 and not il[0].kw and not eq:
+        # pairwise form: the codes of index_labels(labels) compared by enc[i] == enc[j] / != only
+        from .c08 import meet_label_uses
+
+        cmpd, other = meet_label_uses(s, tm.sub(il[0].term, tm.const(0)))
+        good = cmpd and not other
     yield ob(R, f, "hierarchy._meet:index_labels", good, "level labels are indexed by util.index_labels with default (case-insensitive) folding and compared by equality" if good else "labels of a level are not indexed through util.index_labels(labels) (case folding lost) before the equality comparison")
     # agreement depth: deeper levels overwrite shallower ones (levels enumerate from 1)
     it = [itm for lid, (node, itm) in s.loops.items() if itm.op == "call" and call_name(itm) == "builtins.enumerate"]
